@@ -70,7 +70,10 @@ class World:
                         [t0 + rng.choice([15, 30]), mi, 'fast-off', 0]]
         changes.sort()
         unpolled_writer = shared and rng.random() < 0.4
-        return {'mods': mods, 'shared': shared, 'changes': changes, 'T': T, 'rngseed': rng.randrange(1 << 30), 'unpolled_writer': unpolled_writer}
+        scen = {'mods': mods, 'shared': shared, 'changes': changes, 'T': T, 'rngseed': rng.randrange(1 << 30), 'unpolled_writer': unpolled_writer}
+        if rng.random() < 0.2:
+            scen['startup_change'] = [rng.randrange(nmod), rng.choice([0.1, 0.5, 2, 10])]
+        return scen
 
     def run(self, scen):
         r, D, C, E = self.r, self.D, self.C, self.E
@@ -82,6 +85,7 @@ class World:
             return {'secop': E.HardwareError('hw'), 'silent': E.SilentCommunicationFailedError('silent'), 'zerodiv': ZeroDivisionError('z'),
                     'keyerror': KeyError('k')}[k]
         cfg = {}
+        info = {}
         if scen['shared']:
             class IO(C.Module):
                 enablePoll = False
@@ -105,6 +109,12 @@ class World:
             def read_value(self, _m=m):
                 s = D.CURRENT
                 LOG.append((s.now, _m['name'], 'value'))
+                sc = scen.get('startup_change')
+                if sc and scen['mods'][sc[0]]['name'] == _m['name'] and not first.get(('sc', _m['name'])):
+                    # the driver adapts its poll interval in its very first read (the poll thread is still starting up)
+                    first[('sc', _m['name'])] = True
+                    self.pollinterval = sc[1]
+                    info.setdefault('changes', []).append((s.now, sc[0], 'interval', sc[1]))
                 D.vsleep(_m['value_read'])
                 if _m['comfail_startup'] and not first.get(_m['name']):
                     first[_m['name']] = True
@@ -147,8 +157,6 @@ class World:
                                                                            'gain': C.Parameter('gain', C.FloatRange(), readonly=False, default=1.0),
                                                                            'write_gain': write_gain}),
                                'description': 'unpolled', 'io': 'io', 'gain': {'value': 2.5}}
-        info = {}
-
         def root():
             s = D.CURRENT
             node = self.nodes.Node(cfg, testonly=False).build()
@@ -286,6 +294,11 @@ class World:
                 # ---- interval change takes effect from the next wake-up
                 for tc, _, kind, val in mine:
                     r.count('interval_changes_checked')
+                    # a change made while the poll thread is still in its start-up phase (initial writes and reads of all its
+                    # modules) takes effect when the regular polling begins
+                    if tc < info.get('ready', 0):
+                        r.count('interval_changes_during_startup')
+                        tc = info['ready']
                     nxt = [x for x in t if x > tc]
                     # later changes made before the next poll supersede this one
                     upto = nxt[0] if nxt else t_end
